@@ -167,6 +167,7 @@ def search_failing(mod, ctx, broken):
         stream += list(_opt_candidates(near) if near.get('kind') == 'opt' else _ctor_candidates(near))
     stream += mod.fixed_cases()
     stream += mod.gen_ctor_cases(rng, 120)
+    stream += mod.gen_receiver_cases(rng)
     stream += mod.gen_script_cases(rng, 90)
     stream += mod.gen_shape_cases(rng, 60)
     stream += mod.gen_rebind_cases(rng, 45)
